@@ -222,6 +222,9 @@ let dispatch (w : string list) : string =
       | "inv" -> ( match linvert a with Some r -> limbs_str r | None -> "none")
       | "sqrt" -> ( match lsqrt a with Some r -> limbs_str r | None -> "none")
       | _ -> failwith "op")
+  | [ "fpl.cmp"; a0; a1; a2; b0; b1; b2 ] ->
+      (match lcmp ((zs a0, zs a1), zs a2) ((zs b0, zs b1), zs b2) with Eq -> "eq" | Lt -> "lt" | Gt -> "gt")
+      ^ (if leqb ((zs a0, zs a1), zs a2) ((zs b0, zs b1), zs b2) then " same" else " differ")
   | [ "fpl.pow"; a0; a1; a2; e0; e1; e2; e3 ] ->
       limbs_str (lpow_vartime ((zs a0, zs a1), zs a2) [ zs e0; zs e1; zs e2; zs e3 ])
   | [ "fpl.from"; b ] -> ( match lfrom_repr (bytes_of_hex b) with Some r -> limbs_str r | None -> "none")
